@@ -120,7 +120,7 @@ MALFORMED_BODIES = ["a=b\nc='d'", "a=b\tc='d'", "a x=1\nskip", "a x=1\n to='2000
 
 class El:
     __slots__ = ("kind", "ready", "skip", "unwrap", "children", "indent", "wrap_open", "wrap_close", "to", "name",
-                 "skip_pos", "extra", "id", "pre_close", "post_open", "unwrap_pos")
+                 "skip_pos", "extra", "id", "pre_close", "post_open", "unwrap_pos", "post_close")
 
     def __init__(self, kind, ready, skip=False, unwrap=False, children=None, indent=""):
         self.kind, self.ready, self.skip, self.unwrap = kind, ready, skip, unwrap
@@ -136,6 +136,7 @@ class El:
         self.id = 0
         self.pre_close = ""     # text in front of the closing tag on its line (e.g. another inline element)
         self.post_open = ""     # text behind the opening tag on its line
+        self.post_close = ""    # text behind the closing tag on its line
 
     def effective_ready(self):
         return self.ready and not self.skip and self.kind in ("tl", "rm")
@@ -311,7 +312,7 @@ def render_lines(items, sp, out):
                     out.append(it.indent + it.wrap_close)
             else:
                 render_lines(it.children, sp, out)
-            out.append(it.indent + it.pre_close + sp.close_tag(it))
+            out.append(it.indent + it.pre_close + sp.close_tag(it) + it.post_close)
 
 
 def render(items, sp=None, final_nl=True):
@@ -322,6 +323,24 @@ def render(items, sp=None, final_nl=True):
     if final_nl and out:
         s += "\n"
     return s
+
+
+def unicode_space_lines(items, rng, unit):
+    """put white space outside ASCII (ideographic space, no-break space, em space, line / paragraph separator, NEL,
+    vertical tab, form feed) right behind the indentation of inner lines of unwrap-blocks - the first one in particular -
+    and indent later lines deeper"""
+    for e in all_elements(items):
+        if not e.unwrap:
+            continue
+        lines = [ch for ch in e.children if isinstance(ch, Line) and ch.inline is None and ch.text and ch.text.strip(" \t")]
+        for k, ch in enumerate(lines):
+            body = ch.text.lstrip(" \t")
+            lead = ch.text[:len(ch.text) - len(body)]
+            if k == 0 or rng.random() < 0.3:
+                body = rng.choice(["\u3000", "\u00a0", "\u2003", "\x0b", "\x0c", "\u3000\u3000 ", "\u2028", "\u2029", "\u0085"]) + body
+            if k > 0 and rng.random() < 0.6:
+                lead = lead + unit * rng.choice([1, 2])
+            ch.text = lead + body
 
 
 def all_elements(items):
